@@ -49,7 +49,7 @@ func init() {
 			}
 			return 60000
 		},
-		Required: []string{"verify_accept_expected", "verify_reject_expected", "reject_recovery_fails", "reject_recovers_other", "accept_mutant_still_sender", "roundtrip_sign_recover", "binary_path", "json_path", "parse_rejected", "sender_type_mismatch_checked"},
+		Required: []string{"verify_accept_expected", "verify_reject_expected", "reject_recovery_fails", "reject_recovers_other", "accept_mutant_still_sender", "roundtrip_sign_recover", "binary_path", "json_path", "parse_rejected", "sender_type_mismatch_checked", "noid_tx_checked", "noid_forged_from_public_key", "noid_json_path", "noid_binary_path", "recover_illegal_hash_checked"},
 		Assumptions: []string{
 			"decred secp256k1 ecdsa.RecoverCompact/SignCompact called directly is the reference for 'who signed'",
 			"golang.org/x/crypto/sha3 is SHA3-256",
@@ -336,6 +336,8 @@ func run(c *ev.Ctx) {
 			}
 		}
 
+		noID(c, r, k, other, third)
+		illegalHashes(c, r, k)
 		roundTrips(c, r, k)
 	})
 }
@@ -580,5 +582,112 @@ func roundTrips(c *ev.Ctx, r *rand.Rand, k *sig.Key) {
 		if hl != 32 {
 			c.Count("roundtrip_short_hash", 1)
 		}
+	}
+}
+
+// noID: transactions whose id cannot be computed (the serializer has no form
+// for a JSON boolean; Verify does not look into the data of these types).
+// Without an id there is nothing a signature could be "over": Verify must fail
+// whatever the signature is - in particular for the signature anybody can
+// build from the sender's PUBLIC key for the zero message.
+func noID(c *ev.Ctx, r *rand.Rand, k, other, third *sig.Key) {
+	datas := []string{`{"urgent":true}`, `{"a":false}`, `[true]`, `{"k":{"n":[null,false]}}`, `true`, `{"x":"y","z":[{"w":true}]}`}
+	for rep := 0; rep < 3; rep++ {
+		data := datas[r.Intn(len(datas))]
+		dt := []string{"", "message", "deposit"}[r.Intn(3)]
+		t := mkTx(r, k.Addr, third.Addr, false)
+		val := t.val.Clone()
+		val.Set("data", sig.Num(data)) // rendered verbatim
+		t.bin.Data = []byte(data)
+		if dt != "" {
+			val.Set("dataType", sig.Str(dt))
+			d := dt
+			t.bin.DataType = &d
+		}
+		pub := k.Priv.PubKey()
+		sigs := []variant{
+			{"forged-from-public-key", sig.ForgeForZeroMessage(pub, uint32(2+r.Intn(1000)))},
+			{"forged-from-public-key-flipped-v", func() []byte { f := sig.ForgeForZeroMessage(pub, 2); f[64] ^= 1; return f }()},
+			{"sender-key-over-zero-hash", k.SignRSV(make([]byte, 32))},
+			{"sender-key-over-id-of-tx-without-data", k.SignRSV(t.id)},
+			{"sender-key-over-sha3-of-nothing", k.SignRSV(sig.Sha3(nil))},
+			{"other-key", other.SignRSV(t.id)},
+			{"zeros", make([]byte, 65)},
+		}
+		for _, v := range sigs {
+			for _, path := range []string{"json", "binary"} {
+				c.Eval(1)
+				var raw []byte
+				if path == "json" {
+					jv := val.Clone()
+					jv.Set("signature", sig.Str(base64.StdEncoding.EncodeToString(v.sig)))
+					raw = []byte(sig.Plain(jv))
+				} else {
+					raw = t.binWith(v.sig)
+				}
+				wit := map[string]string{"path": path, "class": v.class, "data": data, "dataType": dt, "bytes_hex": hex.EncodeToString(raw), "signature_rsv": hex.EncodeToString(v.sig),
+					"sender_priv": hex.EncodeToString(k.PrivBytes()), "sender": k.HxString()}
+				if path == "json" {
+					wit["tx_json"] = string(raw)
+				}
+				c.Note("noid %s %s %x", path, v.class, raw)
+				// stored forms: raw JSON bytes and RLP bytes both enter through NewTransaction
+				tx, err := transaction.NewTransaction(raw)
+				if err != nil {
+					c.Count("noid_parse_rejected", 1)
+					continue
+				}
+				if len(tx.ID()) != 0 {
+					// goloop found an id after all: the premise does not hold, nothing to judge
+					c.Count("noid_tx_has_id", 1)
+					continue
+				}
+				c.Count("noid_tx_checked", 1)
+				c.Count("noid_"+path+"_path", 1)
+				if v.class == "forged-from-public-key" {
+					c.Count("noid_forged_from_public_key", 1)
+				}
+				c.NonTrivial("N" + string(raw))
+				if tx.Verify() == nil {
+					c.Violation("verify.accepts-transaction-without-id."+path+"."+v.class, wit)
+				}
+			}
+		}
+	}
+}
+
+// illegalHashes: RecoverPublicKey must refuse hashes that are not 1..32 bytes
+// (empty non-nil, nil, over-long), whatever the signature.
+func illegalHashes(c *ev.Ctx, r *rand.Rand, k *sig.Key) {
+	good := k.SignRSV(make([]byte, 32))
+	forged := sig.ForgeForZeroMessage(k.Priv.PubKey(), uint32(2+r.Intn(1000)))
+	hashes := []struct {
+		name string
+		h    []byte
+	}{{"empty-non-nil", []byte{}}, {"nil", nil}, {"len33", make([]byte, 33)}, {"len64", randBytes(r, 64)}, {"empty-slice-of-array", make([]byte, 32)[:0]}}
+	for _, s := range []variant{{"valid-over-zero-hash", good}, {"forged-from-public-key", forged}} {
+		gs, err := crypto.ParseSignature(s.sig)
+		if err != nil {
+			c.Violation("recover.parse-rejects-65-byte-signature", hex.EncodeToString(s.sig))
+			continue
+		}
+		for _, h := range hashes {
+			c.Eval(1)
+			c.Count("recover_illegal_hash_checked", 1)
+			pk, err := gs.RecoverPublicKey(h.h)
+			if err == nil {
+				w := map[string]string{"hash_class": h.name, "hash_len": fmt.Sprint(len(h.h)), "signature_rsv": hex.EncodeToString(s.sig), "class": s.class, "victim_priv": hex.EncodeToString(k.PrivBytes())}
+				if pk != nil {
+					w["recovered"] = common.NewAccountAddressFromPublicKey(pk).String()
+				}
+				c.Violation("recover.accepts-illegal-hash."+h.name+"."+s.class, w)
+			}
+			// common.Signature wrapper too
+			cs := common.Signature{Signature: gs}
+			if _, err := cs.RecoverPublicKey(h.h); err == nil {
+				c.Violation("recover.accepts-illegal-hash.wrapper."+h.name, hex.EncodeToString(s.sig))
+			}
+		}
+		// sanity: over the 32-byte zero hash the sender's own signature recovers (legal hash)
 	}
 }
